@@ -205,6 +205,24 @@ Lemma check_C02_save_blob digest len zeros given i zd :
   check_C02 (CSaveBlob digest len zeros given false (Some i) zd) = true <-> i = digest.
 Proof. cbn [check_C02]. destruct given; apply bytes_eqb_spec. Qed.
 
+(* the save cases without a given ID are judged by save_blob_names_hash: the observation must be the model's result *)
+Lemma check_C02_save_blob_is_names_hash (hash : bytes -> id) b len zeros skip obs zd :
+  check_C02 (CSaveBlob (hash b) len zeros None skip obs zd) = true <->
+  match obs with Some i => SaveOk i | None => SaveErr end = save_blob hash b None skip.
+Proof.
+  rewrite save_blob_names_hash. cbn [check_C02]. destruct obs as [i|].
+  - rewrite bytes_eqb_spec. split; [intros ->; reflexivity | intros H; inversion H; reflexivity].
+  - split; discriminate.
+Qed.
+
+Lemma check_C02_saved_load digest ret loaded :
+  check_C02 (CSavedLoad digest ret loaded) = true <-> ret = digest /\ loaded = Some digest.
+Proof.
+  cbn [check_C02]. rewrite andb_true_iff, bytes_eqb_spec. destruct loaded as [d|].
+  - rewrite bytes_eqb_spec. split; [intros [-> ->]; auto | intros [-> H]; inversion H; auto].
+  - split; [intros [_ H]; discriminate | intros [_ H]; discriminate].
+Qed.
+
 Lemma check_C02_save_blob_computed digest len zeros skip i zd :
   check_C02 (CSaveBlob digest len zeros None skip (Some i) zd) = true <-> i = digest.
 Proof. cbn [check_C02]. apply bytes_eqb_spec. Qed.
@@ -272,5 +290,9 @@ Example oracle_nonvacuous :
   check_case (CRaw FOther [7%N] [mkraw [9%N] false; mkraw [8%N] false] (ORawOk [8%N]) 2) = 2%nat /\
   check_case (CSaved FOther [1%N] [2%N]) = 3%nat /\
   check_case (CSaveBlob [3%N] 524288 true None false (Some [4%N]) [4%N]) = 3%nat /\
-  check_case (CSaveBlob [4%N] 524288 true None false (Some [4%N]) [4%N]) = 0%nat.
+  check_case (CSaveBlob [4%N] 524288 true None false (Some [4%N]) [4%N]) = 0%nat /\
+  check_case (CSaveBlob [5%N] 524289 false None true (Some [4%N]) [4%N]) = 3%nat /\
+  check_case (CSaveBlob [5%N] 524289 false None false None [4%N]) = 3%nat /\
+  check_case (CSavedLoad [5%N] [5%N] (Some [5%N])) = 0%nat /\
+  check_case (CSavedLoad [5%N] [4%N] (Some [4%N])) = 3%nat.
 Proof. repeat split. Qed.
